@@ -5,6 +5,7 @@ import (
 	"go/constant"
 	"go/token"
 	"go/types"
+	"strings"
 
 	"golang.org/x/tools/go/ssa"
 )
@@ -21,8 +22,10 @@ func init() {
 			"from its own Spec.CIDR, Intersects and Covers both returned false, it is not Spec.Disabled and has no DeletionTimestamp, and the same step inserts it into that trie; (keep) the pools are sorted " +
 			"with poolSortFunc before the overlap loop, poolSortFunc decides by category first (aCat-bCat), category(already allocatable, not deleting) < category(terminating) < every other category, and ties " +
 			"end in a name comparison (total order); (mask) a terminating, not disabled pool is inserted into the trie; (finalizer) every removal of the finalizer is guarded by blocksInPool()==false for the " +
-			"pool's own CIDR or by the pool being Allocatable=False and not deleting; blocksInPool returns true where a block's address is contained.",
-		NotDecided: "Correctness of felix/ip.CIDRTrie (Covers/Intersects semantics), informer cache staleness, API write failures between the condition pass and the finalizer pass, and IPAM's own use of the condition.",
+			"pool's own CIDR or by the pool being Allocatable=False and not deleting; blocksInPool returns true where a block's address is contained; (indep) no branch on the error of a call that performs a clientset " +
+			"write decides, within one iteration of the overlap loop, whether trie.Update is reached while the pass continues to further writes; (synced) every informer-typed field of IPPoolController read in the closure of " +
+			"reconcile has its HasSynced among the arguments of a cache.WaitFor(Named)CacheSync call whose true result guards every statement of Run that starts something reaching reconcile.",
+		NotDecided: "Correctness of felix/ip.CIDRTrie (Covers/Intersects semantics), informer cache staleness after the initial sync, that kube-controllers actually starts both informers, API write failures between the condition pass and the finalizer pass, and IPAM's own use of the condition.",
 		Assumptions: []string{
 			"go/types + go/ssa (x/tools v0.50.0) model of the current source, CGO_ENABLED=0 build",
 			"CIDRTrie.Covers(c) / Intersects(c) report an entry containing / contained in c (equal CIDRs satisfy both)",
@@ -51,6 +54,14 @@ func init() {
 				Old: "\treturn strings.Compare(poolA.Name, poolB.Name)\n", New: "\t_ = strings.Compare\n\treturn 0\n", Expect: "C39.keep/total"},
 			{Name: "terminating pool stops masking", File: "kube-controllers/pkg/controllers/ippool/pool_controller.go",
 				Old: "\t\t\tt.Update(cidr, pool)\n\t\t\tcontinue\n", New: "\t\t\tcontinue\n", Expect: "C39.mask/terminating-in-trie"},
+			{Name: "failed Terminating status write skips the trie insertion", File: "kube-controllers/pkg/controllers/ippool/pool_controller.go",
+				Old: "\t\t\t\terrs = append(errs, err)\n\t\t\t}\n\t\t\t// If the pool is being deleted, we still want", New: "\t\t\t\terrs = append(errs, err)\n\t\t\t\tcontinue\n\t\t\t}\n\t\t\t// If the pool is being deleted, we still want", Expect: "C39.indep/terminating"},
+			{Name: "active pool enters the trie only if its Allocatable=True write succeeded", File: "kube-controllers/pkg/controllers/ippool/pool_controller.go",
+				Old: "\t\t\tactive[pool.Name] = pool\n\t\t\tt.Update(cidr, pool)\n", New: "\t\t\tactive[pool.Name] = pool\n\t\t\tif err := updateCondition(ctx, c.cli, pool, metav1.Condition{Type: v3.IPPoolConditionAllocatable, Status: metav1.ConditionTrue, Reason: v3.IPPoolReasonOK}); err == nil {\n\t\t\t\tt.Update(cidr, pool)\n\t\t\t} else {\n\t\t\t\terrs = append(errs, err)\n\t\t\t}\n", Expect: "C39.indep/active"},
+			{Name: "Run no longer waits for the block informer", File: "kube-controllers/pkg/controllers/ippool/pool_controller.go",
+				Old: "c.poolInformer.HasSynced, c.blockInformer.HasSynced)", New: "c.poolInformer.HasSynced)", Expect: "C39.synced/blockInformer"},
+			{Name: "Run no longer waits for the pool informer", File: "kube-controllers/pkg/controllers/ippool/pool_controller.go",
+				Old: "c.poolInformer.HasSynced, c.blockInformer.HasSynced)", New: "c.blockInformer.HasSynced)", Expect: "C39.synced/poolInformer"},
 			{Name: "finalizer removed while blocks remain", File: "kube-controllers/pkg/controllers/ippool/pool_controller.go",
 				Old: "\tif c.blocksInPool(*parsedNet) {\n\t\tlogCtx.Info(\"IPAM blocks still exist in pool, not removing finalizer\")\n\t\treturn nil\n\t}\n", New: "", Expect: "C39.finalizer/remove"},
 			{Name: "finalizer removed from any live pool", File: "kube-controllers/pkg/controllers/ippool/pool_controller.go",
@@ -114,6 +125,8 @@ func runC39(c *Ctx) {
 	c.Rule("C39.keep", "E-ORDER/E-TABLE", "pools are sorted by poolSortFunc before overlap resolution; category decides first; allocatable < terminating < rest; ties end in a name comparison", 4)
 	c.Rule("C39.mask", "E-GUARD", "a terminating, not disabled pool is still inserted into the overlap trie", 1)
 	c.Rule("C39.finalizer", "E-GUARD/E-FLOW", "finalizer removal only under !blocksInPool(own CIDR) or for a not-deleting Allocatable=False pool; blocksInPool reports contained blocks", 4)
+	c.Rule("C39.indep", "E-CTRL", "whether a pool is inserted into the overlap trie does not depend on the outcome of an API write: no branch on the error of a status/finalizer write skips trie.Update while the pass goes on to write further conditions", 2)
+	c.Rule("C39.synced", "E-DOM/E-FIELDS", "every informer field the reconcile closure reads has its HasSynced in a cache.WaitFor(Named)CacheSync call whose success guards every start of the worker in Run", 2)
 
 	rc := c23Func(c, p, c39Pkg, "IPPoolController.reconcileConditions")
 	delTS := func(pool ssa.Value) func(ssa.Value) bool {
@@ -260,7 +273,9 @@ func runC39(c *Ctx) {
 	catFn := c23Func(c, p, c39Pkg, "poolSortCategory")
 	sorted := false
 	if sortTarget != nil {
-		for _, cs := range callsIn(rc, false, func(f *types.Func) bool { return f.Pkg() != nil && f.Pkg().Path() == "slices" && f.Name() == "SortFunc" }) {
+		for _, cs := range callsIn(rc, false, func(f *types.Func) bool {
+			return f.Pkg() != nil && f.Pkg().Path() == "slices" && f.Name() == "SortFunc"
+		}) {
 			a := cs.Args()
 			if len(a) == 2 && a[0] == sortedSlice && a[1] == ssa.Value(sortFn) && instrDominates(cs.Instr, sortTarget) {
 				sorted = true
@@ -428,6 +443,295 @@ func runC39(c *Ctx) {
 		}
 	}
 	c.Check(okTrue, "C39.finalizer/blocksInPool", p.Pos(bip.Pos()), "blocksInPool returns true where cidr.Contains(block address) holds", "blocksInPool has no `return true` under cidr.Contains(block IP): pools with blocks look empty")
+
+	c39Indep(c, p, rc, delTS)
+	c39Synced(c, p)
+}
+
+// c39IsAPIWrite: an invoke of a mutating verb on a generated clientset interface.
+func c39IsAPIWrite(f *types.Func) bool {
+	if f == nil || f.Pkg() == nil {
+		return false
+	}
+	switch f.Name() {
+	case "Update", "UpdateStatus", "Patch", "Create", "Delete", "Apply", "ApplyStatus":
+	default:
+		return false
+	}
+	sig, _ := f.Type().(*types.Signature)
+	if sig == nil || sig.Recv() == nil {
+		return false
+	}
+	if _, isIface := sig.Recv().Type().Underlying().(*types.Interface); !isIface {
+		return false
+	}
+	return strings.Contains(f.Pkg().Path(), "/clientset")
+}
+
+// c39Indep: the overlap trie must hold every terminating / active pool of the
+// pass regardless of whether the pool's status could be written.  For each
+// trie.Update u and each branch on the error of a call that (transitively)
+// performs an API write: within one loop iteration (back edges removed) u must
+// be reachable from both arms or from neither — unless the arm that skips u
+// ends the pass (reaches no further API write).
+func c39Indep(c *Ctx, p *Prog, rc *ssa.Function, delTS func(ssa.Value) func(ssa.Value) bool) {
+	writes := func(call *ssa.Call) bool {
+		cc := call.Common()
+		if c39IsAPIWrite(calleeOf(cc)) {
+			return true
+		}
+		sf := calleeFn(cc)
+		return sf != nil && sf.Blocks != nil && containsCall(sf, 3, c39IsAPIWrite)
+	}
+	// branches on the error of an API write
+	type branch struct {
+		blk  *ssa.BasicBlock
+		call *ssa.Call
+	}
+	var branches []branch
+	hasWrite := map[*ssa.BasicBlock]bool{}
+	for _, b := range rc.Blocks {
+		for _, in := range b.Instrs {
+			if call, ok := in.(*ssa.Call); ok && writes(call) {
+				hasWrite[b] = true
+			}
+		}
+		ifi, ok := b.Instrs[len(b.Instrs)-1].(*ssa.If)
+		if !ok || len(b.Succs) != 2 {
+			continue
+		}
+		cond, _ := stripNot(ifi.Cond, true)
+		bo, ok := cond.(*ssa.BinOp)
+		if !ok || (bo.Op != token.EQL && bo.Op != token.NEQ) {
+			continue
+		}
+		for _, side := range []ssa.Value{bo.X, bo.Y} {
+			if !types.Identical(side.Type(), types.Universe.Lookup("error").Type()) {
+				continue
+			}
+			for _, o := range origins(side, nil) {
+				if call, ok := o.V.(*ssa.Call); ok && writes(call) {
+					branches = append(branches, branch{b, call})
+				}
+			}
+		}
+	}
+	if len(branches) < 4 {
+		c.Lost("reconcileConditions: expected ≥4 branches on the error of a status write, found %d", len(branches))
+	}
+	reach := func(from *ssa.BasicBlock, backEdges bool) map[*ssa.BasicBlock]bool {
+		seen := map[*ssa.BasicBlock]bool{}
+		st := []*ssa.BasicBlock{from}
+		for len(st) > 0 {
+			b := st[len(st)-1]
+			st = st[:len(st)-1]
+			if seen[b] {
+				continue
+			}
+			seen[b] = true
+			for _, s := range b.Succs {
+				if !backEdges && s.Dominates(b) {
+					continue
+				}
+				st = append(st, s)
+			}
+		}
+		return seen
+	}
+	n := map[string]int{}
+	for _, u := range callsIn(rc, false, func(f *types.Func) bool { return c39IsTrie(f, "Update") }) {
+		kind := "other"
+		if mi, _ := u.Args()[2].(*ssa.MakeInterface); mi != nil {
+			switch {
+			case guardedCut(u.Instr, c23NilCond(false, delTS(mi.X))):
+				kind = "terminating"
+			case guardedCut(u.Instr, c23NilCond(true, delTS(mi.X))):
+				kind = "active"
+			}
+		}
+		n[kind]++
+		var bad []string
+		for _, br := range branches {
+			r0, r1 := map[*ssa.BasicBlock]bool{}, map[*ssa.BasicBlock]bool{}
+			if !br.blk.Succs[0].Dominates(br.blk) {
+				r0 = reach(br.blk.Succs[0], false)
+			}
+			if !br.blk.Succs[1].Dominates(br.blk) {
+				r1 = reach(br.blk.Succs[1], false)
+			}
+			in0, in1 := r0[u.Instr.Block()], r1[u.Instr.Block()]
+			if in0 == in1 {
+				continue
+			}
+			skip := br.blk.Succs[0]
+			if in0 {
+				skip = br.blk.Succs[1]
+			}
+			goesOn := false
+			for b := range reach(skip, true) {
+				if hasWrite[b] {
+					goesOn = true
+				}
+			}
+			if goesOn {
+				bad = append(bad, fmt.Sprintf("the branch on the error of %s at %s", fnNameOfCall(br.call), p.Pos(br.call.Pos())))
+			}
+		}
+		c.Check(len(bad) == 0, "C39.indep/"+kind, p.Pos(u.Instr.Pos()), fmt.Sprintf("trie insertion of the %s pool is reached from both arms (or neither) of all %d branches on a status-write error", kind, len(branches)),
+			fmt.Sprintf("trie.Update for the %s pool is skipped on one arm of %s while the pass continues: when that write fails the pool is missing from the overlap trie and an overlapping pool is judged free and made allocatable", kind, strings.Join(bad, "; ")))
+	}
+	if n["terminating"] < 1 || n["active"] < 1 {
+		c.Lost("reconcileConditions: expected a trie.Update for terminating and for active pools, found %v", n)
+	}
+}
+
+func fnNameOfCall(call *ssa.Call) string {
+	if f := calleeOf(call.Common()); f != nil {
+		return f.Name()
+	}
+	return "a call"
+}
+
+func c39Unwrap(v ssa.Value) ssa.Value {
+	for {
+		switch x := v.(type) {
+		case *ssa.ChangeInterface:
+			v = x.X
+		case *ssa.ChangeType:
+			v = x.X
+		case *ssa.MakeInterface:
+			v = x.X
+		case *ssa.TypeAssert:
+			v = x.X
+		case *ssa.Convert:
+			v = x.X
+		default:
+			return v
+		}
+	}
+}
+
+// c39SyncedFields: the struct fields whose HasSynced is handed to a
+// WaitFor(Named)CacheSync call (as a method value or inside a func literal).
+func c39SyncedFields(call CallSite) map[*types.Var]bool {
+	out := map[*types.Var]bool{}
+	args := call.Common().Args
+	if len(args) == 0 {
+		return out
+	}
+	sl, ok := args[len(args)-1].(*ssa.Slice)
+	if !ok {
+		return out
+	}
+	al, ok := sl.X.(*ssa.Alloc)
+	if !ok || al.Referrers() == nil {
+		return out
+	}
+	for _, r := range *al.Referrers() {
+		ia, ok := r.(*ssa.IndexAddr)
+		if !ok || ia.Referrers() == nil {
+			continue
+		}
+		for _, rr := range *ia.Referrers() {
+			st, ok := rr.(*ssa.Store)
+			if !ok || st.Addr != ia {
+				continue
+			}
+			mc, ok := c39Unwrap(st.Val).(*ssa.MakeClosure)
+			if !ok {
+				continue
+			}
+			fn := mc.Fn.(*ssa.Function)
+			if obj, _ := fn.Object().(*types.Func); obj != nil && obj.Name() == "HasSynced" && len(mc.Bindings) == 1 {
+				if fv := fieldVar(c39Unwrap(mc.Bindings[0])); fv != nil {
+					out[fv] = true
+				}
+				continue
+			}
+			// func literal: every HasSynced it calls on a field
+			for _, cs := range callsIn(fn, true, func(f *types.Func) bool { return f.Name() == "HasSynced" }) {
+				if a := cs.Args(); len(a) > 0 {
+					if fv := fieldVar(c39Unwrap(a[0])); fv != nil {
+						out[fv] = true
+					}
+				}
+			}
+		}
+	}
+	return out
+}
+
+// c39Synced: reconcile decides from informer caches (the pool list, the block
+// list behind blocksInPool).  An unsynced cache looks empty, which reads as
+// "no blocks left" / "no overlapping pool".  So every informer field read in the
+// reconcile closure must have been waited for before the worker can start.
+func c39Synced(c *Ctx, p *Prog) {
+	run := c23Func(c, p, c39Pkg, "IPPoolController.Run")
+	rec := c23Func(c, p, c39Pkg, "IPPoolController.reconcile")
+	ctl, _ := p.LookupObj(c39Pkg, "IPPoolController").(*types.TypeName)
+	if ctl == nil {
+		c.Lost("type IPPoolController")
+	}
+	st, _ := ctl.Type().Underlying().(*types.Struct)
+	if st == nil {
+		c.Lost("IPPoolController is not a struct")
+	}
+	read := fieldsRead(p.closure(rec), ctl.Type())
+	var informers []*types.Var
+	for i := 0; i < st.NumFields(); i++ {
+		f := st.Field(i)
+		ms := types.NewMethodSet(f.Type())
+		if ms.Lookup(nil, "HasSynced") == nil && ms.Lookup(f.Pkg(), "HasSynced") == nil {
+			continue
+		}
+		if len(read[f.Name()]) > 0 {
+			informers = append(informers, f)
+		}
+	}
+	if len(informers) < 2 {
+		c.Lost("expected ≥2 informer fields of IPPoolController read by the reconcile closure, found %d", len(informers))
+	}
+	// starts of the worker: calls / go / defer in Run whose target (or bound method / closure operand) reaches reconcile
+	reaches := func(f *ssa.Function) bool { return f != nil && p.closure(f)[rec] }
+	var starts []ssa.Instruction
+	allInstrs(run, false, func(_ *ssa.Function, in ssa.Instruction) {
+		switch x := in.(type) {
+		case ssa.CallInstruction:
+			if reaches(calleeFn(x.Common())) {
+				starts = append(starts, in)
+				return
+			}
+			for _, a := range x.Common().Args {
+				switch y := c39Unwrap(a).(type) {
+				case *ssa.MakeClosure:
+					if reaches(y.Fn.(*ssa.Function)) {
+						starts = append(starts, in)
+					}
+				case *ssa.Function:
+					if reaches(y) {
+						starts = append(starts, in)
+					}
+				}
+			}
+		}
+	})
+	if len(starts) == 0 {
+		c.Lost("IPPoolController.Run: no call/go statement that reaches reconcile")
+	}
+	isWait := func(f *types.Func) bool {
+		return f != nil && f.Pkg() != nil && f.Pkg().Path() == "k8s.io/client-go/tools/cache" && (f.Name() == "WaitForNamedCacheSync" || f.Name() == "WaitForCacheSync")
+	}
+	for _, f := range informers {
+		f := f
+		ok := true
+		for _, s := range starts {
+			if !guardedCut(s, callCond(true, func(g CallSite) bool { return isWait(g.Callee) && c39SyncedFields(g)[f] })) {
+				ok = false
+			}
+		}
+		c.Check(ok, "C39.synced/"+f.Name(), p.Pos(run.Pos()), fmt.Sprintf("c.%s.HasSynced is waited for before each of the %d worker starts in Run", f.Name(), len(starts)),
+			fmt.Sprintf("reconcile reads the cache of c.%s, but Run can start the worker without WaitFor(Named)CacheSync(…, c.%s.HasSynced) having returned true: the first pass sees an empty cache (no blocks ⇒ finalizer of a terminating pool removed; no pools ⇒ nothing masked)", f.Name(), f.Name()))
+	}
 }
 
 // c39RootIs: the access path of v is rooted at root (v = root.f.g…, through loads,
